@@ -623,7 +623,10 @@ impl Stdfs {
 
         // Iterate over source taking into account link following
         let src_root = StdfsEntry::from(&src_root)?.follow(cp.follow);
-        for entry in Stdfs::entries(src_root.path())?.follow(cp.follow) {
+        // Take a snapshot of the source before anything is created so that copying a directory
+        // into its own subtree doesn't chase the entries it is creating
+        let entries: Vec<_> = Stdfs::entries(src_root.path())?.follow(cp.follow).into_iter().collect();
+        for entry in entries {
             let src = entry?;
 
             // Set destination path based on source path
